@@ -52,12 +52,17 @@ Alphabet == <<
   [k |-> "uwrite_s", n |-> "x"],    \*  !{unhygienic(quote x = K)}      (statement position)
   [k |-> "arg",      n |-> "x"],    \*  o(!{e})
   [k |-> "uarg",     n |-> "x"],    \*  o(!{unhygienic(e)})
-  [k |-> "cwrite",   n |-> "x"]     \*  if c then x = K else x = K end  (write inside a conditional)
+  [k |-> "cwrite",   n |-> "x"],    \*  if c then x = K else x = K end  (write inside a conditional)
+  [k |-> "mcall",    n |-> "hh"],   \*  o(hh())                       a receiverless call written in the quote: the
+                                    \*  METHOD hh (prints 3), never a callable local `hh` of the call site (7)
+  [k |-> "umcall",   n |-> "hh"]    \*  o(!{unhygienic(quote hh())})  explicitly unhygienic: the caller's local if any
 >>
 
 (* call sites: what the colliding names are where the macro is called *)
 XStates == {"absent", "local", "param", "captured", "inclosure", "uninit"}
-YStates == {"absent", "local", "probe"}   \* probe: y is not declared, the site reads it AFTER the call
+YStates == {"absent", "local", "probe", "callable"}   \* probe: y is not declared, the site reads it AFTER the call;
+                                                      \* callable: no y, but a callable local hh := || -> 7
+HasCall(calls) == \E c \in 1..Len(calls) : \E j \in 1..Len(calls[c]) : Alphabet[calls[c][j]].k \in {"mcall", "umcall"}
 
 Bodies == UNION {[1..n -> 1..Len(Alphabet)] : n \in 1..MaxLen} \cup ExtraBodies
 
@@ -125,7 +130,7 @@ K(mi, i) == 100 * mi + 10 * i
 Exec(m0, s, mi, i, devs) ==
   LET top == Len(m0.frames)
       origin == IF s.k \in {"arg", "uarg"} THEN "caller" ELSE "macro"
-      unhyg  == s.k \in {"uread", "uwrite_e", "uwrite_s", "uarg"}
+      unhyg  == s.k \in {"uread", "uwrite_e", "uwrite_s", "uarg", "umcall"}
       cond   == s.k = "cwrite"
       c      == Resolve(m0, s.n, origin, unhyg, cond, devs)
       m      == IF s.k = "bind" THEN [m0 EXCEPT !.res = Append(@, "own")]
@@ -136,6 +141,7 @@ Exec(m0, s, mi, i, devs) ==
          ELSE [m EXCEPT !.cells = Append(@, Cell(K(mi, i))),
                         !.frames[top].vars = Append(@, <<s.n, Len(m.cells) + 1>>)]
     [] s.k \in {"read", "uread", "arg", "uarg"} -> ReadCell(m, c)
+    [] s.k \in {"mcall", "umcall"} -> IF c = 0 THEN Emit(m, 3) ELSE ReadCell(m, c)   \* no visible callable local: the method
     [] s.k = "write" -> WriteCell(m, c, K(mi, i) + 5)
     [] s.k = "cwrite" ->
          LET cc == UninitAnywhere(m, s.n)             \* what the checker believes is assigned
@@ -157,8 +163,8 @@ Exec(m0, s, mi, i, devs) ==
 SiteMachine(site) ==
   LET xs == IF site.x = "absent" THEN <<>> ELSE <<<<"x", 1>>>>
       cx == IF site.x = "absent" THEN <<>> ELSE IF site.x = "uninit" THEN <<Uninit>> ELSE <<Cell(1)>>
-      ys == IF site.y = "local" THEN <<<<"y", Len(cx) + 1>>>> ELSE <<>>
-      cy == IF site.y = "local" THEN <<Cell(2)>> ELSE <<>>
+      ys == IF site.y = "local" THEN <<<<"y", Len(cx) + 1>>>> ELSE IF site.y = "callable" THEN <<<<"hh", Len(cx) + 1>>>> ELSE <<>>
+      cy == IF site.y = "local" THEN <<Cell(2)>> ELSE IF site.y = "callable" THEN <<Cell(7)>> ELSE <<>>
       fn == Frame("fn", xs \o ys)
   IN [frames  |-> IF site.x = "inclosure" THEN <<fn, Frame("closure", <<>>)>> ELSE <<fn>>,
       cells   |-> cx \o cy, out |-> <<>>, verdict |-> "ok", corrupt |-> FALSE, fuzzy |-> FALSE, fired |-> {}, res |-> <<>>]
@@ -172,7 +178,9 @@ Epilogue(m, site) ==
   LET a == IF site.x \in {"local", "param", "inclosure"} THEN SiteRead(m, "x")
            ELSE IF site.x = "captured" THEN SiteRead(SiteRead(m, "x"), "x")   \* o(x); o(g.())
            ELSE m
-  IN IF site.y \in {"local", "probe"} THEN SiteRead(a, "y") ELSE a
+  IN IF site.y \in {"local", "probe"} THEN SiteRead(a, "y")
+     ELSE IF site.y = "callable" THEN SiteRead(a, "hh")       \* o(hh()) at the site: the local
+     ELSE a
 
 -----------------------------------------------------------------------------
 VARIABLES prog,    \* [site, calls]: calls = sequence of macro bodies (sequences of Alphabet indices)
@@ -183,6 +191,8 @@ VARIABLES prog,    \* [site, calls]: calls = sequence of macro bodies (sequences
 vars == <<prog, pc, mi, si, impl, ref>>
 
 Init == /\ prog \in [site : [x : XStates, y : YStates], calls : {<<b>> : b \in Bodies} \cup Pairs]
+        /\ HasCall(prog.calls) => prog.site.y \in {"absent", "callable"}    \* the call statements are explored at the
+        /\ prog.site.y = "callable" => HasCall(prog.calls)                 \* sites with and without a callable local
         /\ pc = "prologue" /\ mi = 1 /\ si = 0
         /\ impl = SiteMachine(prog.site) /\ ref = SiteMachine(prog.site)
 
@@ -229,7 +239,7 @@ Next == Prologue \/ ExpandStep \/ LeaveExpansion \/ Finish \/ Done
 -----------------------------------------------------------------------------
 (* Properties of the specification (checked by TLC on every state) *)
 
-CallerCells == 1..((IF prog.site.x = "absent" THEN 0 ELSE 1) + (IF prog.site.y = "local" THEN 1 ELSE 0))
+CallerCells == 1..((IF prog.site.x = "absent" THEN 0 ELSE 1) + (IF prog.site.y \in {"local", "callable"} THEN 1 ELSE 0))
 
 TypeOK == /\ pc \in {"prologue", "expand", "epilogue", "done"}
           /\ impl.verdict \in {"ok", "rejected"} /\ ref.verdict \in {"ok", "rejected"}
